@@ -57,7 +57,7 @@ def find_twins(kani_units, unit, fn):
     res = []
     for ku in kani_units:
         for h in ku.harnesses:
-            if h.twin and h.twin == f'{unit}::{fn}':
+            if h.twin and f'{unit}::{fn}' in h.twin.split(','):
                 res.append((ku, h))
     return res
 
